@@ -330,19 +330,58 @@ def judge_and_confirm(ctx, cases, recs, execute, judge, replay_extra=None, max_c
     if not unknown:
         return []
     sel = unknown[:max_confirm]
-    again = execute([cases[i] for i, _, _ in sel])
-    bad2 = {j for j, _, _ in judge(again)}
     confirmed = []
-    for j, (i, why, kf) in enumerate(sel):
-        if j in bad2:
-            rp = {"property": ctx.prop, "case": cases[i], "record": recs[i], "why": why, "kf": kf, "seed": ctx.seed}
-            if replay_extra:
-                rp.update(replay_extra)
-            ctx.report_bad(cases[i], why, kf, rp)
-            confirmed.append(i)
-        else:
-            ctx.divergences += 1
-            log("UNREPRODUCED %s case %d: failed once, passed on re-run (not a verdict)" % (ctx.prop, i))
+    pending = list(sel)
+    for attempt in range(4):          # a failure that depends on allocator / pool state may need more than one re-run
+        if not pending:
+            break
+        again = execute([cases[i] for i, _, _ in pending])
+        bad2 = {j for j, _, _ in judge(again)}
+        still = []
+        for j, (i, why, kf) in enumerate(pending):
+            if j in bad2:
+                rp = {"property": ctx.prop, "case": cases[i], "record": recs[i], "why": why, "kf": kf, "seed": ctx.seed}
+                if replay_extra:
+                    rp.update(replay_extra)
+                ctx.report_bad(cases[i], why, kf, rp)
+                confirmed.append(i)
+            else:
+                still.append((i, why, kf))
+        pending = still
+    if pending and len(cases) <= 60000:
+        # state carried between cases inside one harness process (pools, caches) can matter: last attempt = the same batch again
+        again = execute(cases)
+        judged_again = judge(again)
+        bad_all = {j for j, _, _ in judged_again}
+        if pending and not (bad_all & {i for i, _, _ in pending}):
+            # nondeterministic failure (different cases fail in each run of the batch): the same Judge clause failing again on
+            # the same batch is the reproduction; report the failures of the second run
+            whys = {json.dumps(w, sort_keys=True) for _, w, _ in pending}
+            for j, w, kf in judged_again:
+                if json.dumps(w, sort_keys=True) in whys and not ctx.known_match(kf) and len(confirmed) < 3:
+                    rp = {"property": ctx.prop, "case": cases[j], "record": again[j], "why": w, "kf": kf, "seed": ctx.seed,
+                          "note": "nondeterministic: fails on different cases of the batch in each run; same Judge clause both times"}
+                    if replay_extra:
+                        rp.update(replay_extra)
+                    ctx.report_bad(cases[j], w, kf, rp)
+                    confirmed.append(j)
+            if confirmed:
+                pending = []
+        still = []
+        for (i, why, kf) in pending:
+            if i in bad_all:
+                rp = {"property": ctx.prop, "case": cases[i], "record": recs[i], "why": why, "kf": kf, "seed": ctx.seed,
+                      "note": "reproduces only when the whole batch is run in one process"}
+                if replay_extra:
+                    rp.update(replay_extra)
+                ctx.report_bad(cases[i], why, kf, rp)
+                confirmed.append(i)
+            else:
+                still.append((i, why, kf))
+        pending = still
+    for i, why, kf in pending:
+        ctx.divergences += 1
+        log("UNREPRODUCED %s case %d: failed once, passed on 4 re-runs and a re-run of the batch (not a verdict)" % (ctx.prop, i))
     ctx.extra["failing_cases_total"] = len(unknown)
     if unknown and not confirmed:
         raise Infra("%s: %d judge failures, none reproduced" % (ctx.prop, len(unknown)))
